@@ -103,7 +103,8 @@ def DAYS(end_date, start_date):
     start_date = utils.parse_date(start_date)
     if utils.any_is_error((end_date, start_date)):
         return error.VALUE
-    return utils.serialize_date(end_date) - utils.serialize_date(start_date)
+    # the calendar difference; serials are not evenly spaced before 1 March 1900
+    return (end_date - start_date).total_seconds() / 86400
 
 
 @dispatcher.register_for('NOW')
@@ -128,7 +129,7 @@ def DATEDIF(start_date, end_date, unit):
         if unit == 'm':
             return (end_date.year - start_date.year) * 12 + end_date.month - start_date.month - (1 if end_date.day < start_date.day else 0)
         if unit == 'd':
-            return int(utils.serialize_date(end_date) - utils.serialize_date(start_date))
+            return (end_date - start_date).days
         if unit == 'md':
             start_day = start_date.day
             end_day = end_date.day
